@@ -759,6 +759,7 @@ func c12kills(c *Ctx, r *RNG, n int) {
 	}
 	dir, _ := os.MkdirTemp("", "c12kill")
 	defer os.RemoveAll(dir)
+	totalLines, totalAcked, nonEmpty := 0, 0, 0
 	for k := 0; k < n; k++ {
 		path := fmt.Sprintf("%s/out%d.log", dir, k)
 		size := r.Range(16, 4096)
@@ -793,10 +794,20 @@ func c12kills(c *Ctx, r *RNG, n int) {
 		if acked >= 0 && len(lines) < acked+1 {
 			c12viol(c, fmt.Sprintf("file after SIGKILL holds %d lines but Sync acknowledged line %d", len(lines), acked), desc)
 		}
+		totalLines += len(lines)
+		if acked >= 0 {
+			totalAcked++
+		}
+		if len(lines) > 0 {
+			nonEmpty++
+		}
 		os.Remove(path)
 		os.Remove(path + ".ack")
 	}
 	c12info(c, "kills", strconv.Itoa(n))
+	c12info(c, "kill_files_nonempty", strconv.Itoa(nonEmpty))
+	c12info(c, "kill_files_with_ack", strconv.Itoa(totalAcked))
+	c12info(c, "kill_lines_checked", strconv.Itoa(totalLines))
 }
 
 func init() { registry["C12"] = c12 }
